@@ -1,5 +1,6 @@
 //! protox — bounded-exhaustive exploration of the sans-IO crate `wtransport-proto`.
 mod adapt;
+mod c11;
 mod c14;
 mod c15;
 mod subjects;
@@ -15,6 +16,7 @@ fn main() {
         let v = vx::load_replay(path);
         let sc = &v["scenario"];
         let res = match args.prop.as_str() {
+            "C11" => c11::replay(sc),
             "C14" => c14::replay(sc),
             "C15" => c15::replay(sc),
             p => vx::machinery(&format!("protox: no replay for {p}")),
@@ -32,6 +34,7 @@ fn main() {
         }
     }
     let code = match args.prop.as_str() {
+        "C11" => c11::run(&args),
         "C14" => c14::run(&args),
         "C15" => c15::run(&args),
         p => vx::machinery(&format!("protox does not serve {p}")),
